@@ -415,12 +415,13 @@ Lemma parse_quoted_string_inv : forall cf fuel s q i str s',
 Proof.
   intros cf fuel s q i str s' HQ G C S B H.
   unfold parse_quoted_string in H. rewrite (current_some _ _ C) in H.
+  apply cap_string_ok in H. destruct H as [H FIT].
   destruct (move_cons s q i G C S) as (G2 & S2 & C2 & F2).
   destruct (quoted_loop_inv cf q HQ fuel fuel cp_init [] (move s) i str s' (le_n _) G2 S2 B
               ltac:(cbn; lia) H) as (body & out & r & -> & DC & -> & G' & S' & C' & F').
   exists ([q] ++ body ++ [q]), r.
   split; [cbn [app]; rewrite <- app_assoc; reflexivity|].
-  split; [exists q, body; auto|]. splits; auto; congruence.
+  split; [exists q, body; cbn [app] in FIT; auto|]. splits; auto; congruence.
 Qed.
 
 (* ------------------------------------------------------------------------------------- *)
@@ -472,9 +473,10 @@ Proof.
     split; [left; split; assumption|congruence].
   - unfold parse_non_quoted_string in H. rewrite (current_some _ _ C1) in H.
     destruct (can_be_in_non_quoted_string c) eqn:K; [|discriminate H].
+    apply cap_string_ok in H. destruct H as [H FIT].
     destruct (non_quoted_loop_inv fuel [] c s1 t key s' G1 C1 S1 H) as (k & r & -> & FA & -> & P & F').
     exists (c :: k), r. split; [reflexivity|].
-    split; [right; split; [discriminate|split; [constructor; assumption|reflexivity]]|].
+    split; [right; split; [discriminate|split; [constructor; assumption|split; [reflexivity|exact FIT]]]|].
     split; [exact P|congruence].
 Qed.
 
@@ -922,8 +924,8 @@ Qed.
 Lemma jstring_dstring : forall cf, decode_unicode cf = true ->
   forall t s, jstring t s -> dstring cf t s.
 Proof.
-  intros cf DU t s (body & -> & J). exists 34, body. split; [auto|]. split; [reflexivity|].
-  apply jchars_dchars; assumption.
+  intros cf DU t s (body & -> & J & FIT). exists 34, body. split; [auto|]. split; [reflexivity|].
+  split; [apply jchars_dchars; assumption|exact FIT].
 Qed.
 
 Lemma jnumber_dnumber : forall cf t v, jnumber t -> num_den cf t v -> dnumber cf t v.
@@ -1477,7 +1479,7 @@ Lemma parse_dstring_ok : forall cf t str, dstring cf t str ->
     exists s', parse_quoted_string cf fuel s = (Ok, str, s') /\
                good s' /\ stream s' = tail /\ cur s' = None /\ found s' = found s.
 Proof.
-  intros cf t str (q & body & HQ & -> & D) fuel s tail G HS L.
+  intros cf t str (q & body & HQ & -> & D & FIT) fuel s tail G HS L.
   rewrite <- !app_assoc in HS. cbn [app] in HS.
   rewrite !app_length in L. cbn [length] in L.
   assert (Q0 : q <> 0) by (destruct HQ; lia).
@@ -1485,7 +1487,7 @@ Proof.
   unfold parse_quoted_string. rewrite E1.
   destruct (dchars_fwd cf q HQ 0 body str D fuel cp_init [] _ tail eq_refl ltac:(lia) G1 S1 ltac:(lia))
     as (s' & E' & G' & S' & C' & F').
-  exists s'. rewrite E'. cbn [app]. splits; auto; congruence.
+  exists s'. rewrite E'. cbn [app]. rewrite (cap_string_fits _ _ FIT). splits; auto; congruence.
 Qed.
 
 (* ---- keys ---- *)
@@ -1529,7 +1531,7 @@ Lemma parse_dkey_ok : forall cf kt k, dkey cf kt k ->
     exists s', parse_key cf fuel s = (Ok, k, s') /\ good s' /\ stream s' = x :: r /\
                found s' = found s.
 Proof.
-  intros cf kt k [DS|(NE & FA & ->)] fuel s x r G HS XZ XN L.
+  intros cf kt k [DS|(NE & FA & -> & FIT)] fuel s x r G HS XZ XN L.
   - pose proof DS as (q & body & HQ & Et & _).
     assert (Q0 : q <> 0) by (destruct HQ; lia).
     assert (S2 : stream s = q :: (body ++ [q]) ++ x :: r) by (rewrite HS, Et; reflexivity).
@@ -1546,7 +1548,7 @@ Proof.
     unfold parse_non_quoted_string. rewrite (current_some _ _ C1), K.
     destruct (non_quoted_loop_fwd k FA' fuel [] c s1 x r G1 C1 S1 XZ XN ltac:(lia))
       as (s' & E' & G' & S' & C' & F').
-    exists s'. cbn [app] in E'. splits; auto; congruence.
+    exists s'. cbn [app] in E'. rewrite E', (cap_string_fits _ _ FIT). splits; auto; congruence.
 Qed.
 
 (* ---- numbers ---- *)
@@ -2185,7 +2187,7 @@ Proof.
   subst w. cbn [app] in E.
   inversion V as [| | |d0 t0 v0 N|d0 t0 s0 DS| | | |]; subst.
   - destruct N as (_ & _ & _ & _ & _ & _ & JV). apply jv_of_number_is_number in JV. discriminate JV.
-  - destruct DS as (q & body & HQ & -> & DC).
+  - destruct DS as (q & body & HQ & -> & DC & _).
     cbn [app] in E. injection E as <- E. rewrite <- app_assoc in E. cbn [app] in E.
     destruct body as [|a [|b [|c body]]]; cbn [app] in E; try discriminate E.
     injection E as <- <- <- _.
@@ -2200,6 +2202,7 @@ Proof.
   intro H.
   assert (J : jvalueD (num_den no_decode_cfg) 0 [34; 92; 117; 48; 48; 52; 49; 34] (JStr [65])).
   { apply vd_str. exists [92; 117; 48; 48; 52; 49]. split; [reflexivity|].
+    split; [|vm_compute; discriminate].
     apply (chs_cons [92; 117; 48; 48; 52; 49] [65] [] []); [|constructor].
     apply (ch_bmp _ 65); [|reflexivity].
     exact (uesc 48 48 52 49 0 0 4 1 eq_refl eq_refl eq_refl eq_refl). }
